@@ -206,6 +206,9 @@ Definition dec_proofs (o : option json) : option (list (option obj)) :=
   end.
 Definition enc_proof1 (p : option obj) : json := match p with None => JNull | Some m => JObj m end.
 
+(* the code as found / as repaired by the fix: commits of C16 *)
+Inductive variant := AsIs | Fixed.
+
 (* parseSubject / subjectToBytes *)
 Inductive subj := SNone | SStr (s : string) | SList (l : list sstruct).
 Definition dec_subject1 (j : json) : option sstruct :=
@@ -215,11 +218,11 @@ Definition dec_subject1 (j : json) : option sstruct :=
   | JObj m => dec_sstruct subject_fields m
   | _ => None
   end.
-Definition dec_subject (o : option json) : option subj :=
+Definition dec_subject (w : variant) (o : option json) : option subj :=
   match o with
   | None => Some SNone
   | Some (JStr s) => Some (SStr s)
-  | Some JNull => Some (SStr "")
+  | Some JNull => match w with AsIs => Some (SStr "") | Fixed => Some SNone end   (* fix a925e19 *)
   | Some (JObj m) => option_map (fun s => SList [s]) (dec_sstruct subject_fields m)
   | Some (JArr l) => option_map SList (mapM dec_subject1 l)
   | _ => None
@@ -247,6 +250,15 @@ Definition dec_issuer (o : option json) : option sstruct :=
   end.
 Definition enc_issuer (s : sstruct) : json :=
   match s_cf s with [] => JStr (id_of s) | _ => enc_sstruct s end.
+(* Credential.raw: the issuer member (fix e7a28b5: none for the zero Issuer; before, "issuer": "" was written) *)
+Definition issuer_member (w : variant) (s : sstruct) : obj :=
+  match w with
+  | AsIs => [("issuer", enc_issuer s)]
+  | Fixed => match s_cf s with
+             | [] => if id_of s =? "" then [] else [("issuer", enc_issuer s)]
+             | _ => [("issuer", enc_issuer s)]
+             end
+  end.
 
 (* pointer / interface members *)
 Definition dec_time (o : option json) : option (option string) :=
@@ -288,7 +300,7 @@ Notation "x <- e ;; k" := (bind e (fun x => k)) (at level 61, e at next level, r
 
 (* populateCredential (json.Unmarshal into rawCredential) + newCredential, for a JSON-LD credential.
    The member `jwt` is decoded into rawCredential.JWT and then overwritten by ParseCredential. *)
-Definition parse_vc (j : json) : option vc :=
+Definition parse_vc (w : variant) (j : json) : option vc :=
   match j with
   | JObj m =>
       id <- dec_str (lk m "id") ;;
@@ -304,7 +316,7 @@ Definition parse_vc (j : json) : option vc :=
       tou <- dec_typedids (lk m "termsOfUse") ;;
       refresh <- dec_typedids (lk m "refreshService") ;;
       proofs <- dec_proofs (lk m "proof") ;;
-      subject <- dec_subject (lk m "credentialSubject") ;;
+      subject <- dec_subject w (lk m "credentialSubject") ;;
       Some {| v_ctx := fst ctx; v_cctx := snd ctx; v_id := id; v_types := types; v_subject := subject;
               v_issuer := issuer; v_issued := issued; v_expired := expired; v_proofs := proofs;
               v_status := status; v_schemas := schemas; v_evidence := dec_iface (lk m "evidence");
@@ -314,7 +326,7 @@ Definition parse_vc (j : json) : option vc :=
   end.
 
 (* Credential.raw: the typed members in the order of the raw struct *)
-Definition raw_vc (v : vc) : obj :=
+Definition raw_vc (w : variant) (v : vc) : obj :=
   [("@context", enc_context (v_ctx v) (v_cctx v))] ++
   emit_str "id" (v_id v) true ++
   [("type", enc_types (v_types v))] ++
@@ -323,7 +335,7 @@ Definition raw_vc (v : vc) : obj :=
   opt_member "expirationDate" (option_map JStr (v_expired v)) ++
   opt_member "proof" (enc_list enc_proof1 (v_proofs v)) ++
   opt_member "credentialStatus" (option_map enc_sstruct (v_status v)) ++
-  [("issuer", enc_issuer (v_issuer v))] ++
+  issuer_member w (v_issuer v) ++
   opt_member "credentialSchema" (enc_schemas (v_schemas v)) ++
   opt_member "evidence" (v_evidence v) ++
   opt_member "termsOfUse" (enc_list enc_sstruct (v_tou v)) ++
@@ -331,12 +343,11 @@ Definition raw_vc (v : vc) : obj :=
   emit_str "_sd_alg" (v_sdalg v) true.
 
 (* rawCredential.MarshalJSON: merge, through a map[string]interface{} *)
-Definition marshal_vc (v : vc) : json := f64j (JObj (merge_cf (raw_vc v) (v_cf v))).
+Definition marshal_vc (w : variant) (v : vc) : json := f64j (JObj (merge_cf (raw_vc w v) (v_cf v))).
 
-Definition roundtrip_vc (j : json) : option json := option_map marshal_vc (parse_vc j).
+Definition roundtrip_vc (w : variant) (j : json) : option json := option_map (marshal_vc w) (parse_vc w j).
 
 (* ---------- presentation ---------- *)
-Inductive variant := AsIs | Fixed.
 
 Record vp := {
   p_ctx : list string; p_cctx : list json; p_id : string; p_types : list string; p_creds : list json;
@@ -403,7 +414,7 @@ Definition jwt_claims (secs : string -> Z) (minimize : bool) (v : vc) : option j
       Some {| j_iss := id_of (v_issuer v); j_sub := sub; j_jti := v_id v;
               j_nbf := Some (secs issued); j_iat := Some (secs issued);
               j_exp := option_map secs (v_expired v);
-              j_vc := match marshal_vc v' with JObj m => m | _ => [] end |}
+              j_vc := match marshal_vc Fixed v' with JObj m => m | _ => [] end |}
   | _, _ => None       (* no single subject id, or no issuance date (the real code dereferences nil) *)
   end.
 
@@ -473,4 +484,163 @@ Definition didkey_decode (mc : list byte) : option (list byte) :=
   match fp_decode mc with
   | Some (k, code) => if existsb (N.eqb code) didkey_codes then Some k else None
   | None => None
+  end.
+
+(* ---------- NIST curve points in did:key: SEC1 compressed form with FIXED-WIDTH X ---------- *)
+(* big-endian, exactly n bytes (elliptic.MarshalCompressed: x.FillBytes) *)
+Fixpoint be_bytes (n : nat) (z : Z) : list byte :=
+  match n with O => [] | S k => be_bytes k (z / 256)%Z ++ [Z.to_N (z mod 256)%Z] end.
+Definition be_value (l : list byte) : Z := fold_left (fun a b => (a * 256 + Z.of_N b)%Z) l 0%Z.
+Definition ec_compress (size : nat) (x y : Z) : list byte := (2 + Z.to_N (y mod 2)%Z)%N :: be_bytes size x.
+(* field size in bytes of the curve a multicodec stands for *)
+Definition curve_size (code : N) : option nat :=
+  if (code =? 4608)%N then Some 32%nat else if (code =? 4609)%N then Some 48%nat
+  else if (code =? 4610)%N then Some 66%nat else None.
+
+(* ---------- DID documents: ids relative to @base / id, verification methods, relationships ---------- *)
+Definition str_entry (o : option json) : string := match o with Some (JStr s) => s | _ => "" end.   (* stringEntry *)
+Definition hash : ascii := "#"%char.
+Definition starts_hash (s : string) : bool := match s with String c _ => Ascii.eqb c hash | EmptyString => false end.
+Fixpoint is_prefix (p s : string) : bool :=
+  match p, s with
+  | EmptyString, _ => true
+  | String a p', String b s' => Ascii.eqb a b && is_prefix p' s'
+  | _, _ => false
+  end.
+Fixpoint drop (n : nat) (s : string) : string :=
+  match n, s with O, _ => s | S k, String _ r => drop k r | _, EmptyString => EmptyString end.
+(* strings.Replace(s, pat, "", 1) *)
+Fixpoint replace_first (s pat : string) : string :=
+  if is_prefix pat s then drop (String.length pat) s
+  else match s with EmptyString => EmptyString | String c r => String c (replace_first r pat) end.
+(* strings.Split(s, "#")[0] *)
+Fixpoint before_hash (s : string) : string :=
+  match s with
+  | EmptyString => EmptyString
+  | String c r => if Ascii.eqb c hash then EmptyString else String c (before_hash r)
+  end.
+Definition id_base (did base : string) : string := if base =? "" then did else base.
+Definition resolve_rel (did base frag : string) : string := (id_base did base ++ frag)%string.   (* resolveRelativeDIDURL *)
+Definition make_rel (did base url : string) : string := replace_first url (id_base did base).     (* makeRelativeDIDURL *)
+(* the absolute id a reference or id text denotes *)
+Definition abs_id (did base k : string) : string := if starts_hash k then resolve_rel did base k else k.
+
+Record vmeth := { m_id : string; m_type : string; m_ctrl : string; m_rel : bool; m_key : string * json }.
+
+Definition ed2020 : string := "Ed25519VerificationKey2020".
+(* decodeVM / populateRawVerificationMethod on the key material: the member the key is written back as.
+   base58 and multibase(z) texts are canonical encodings of the key bytes (btcutil, sampled); a JWK is re-marshalled *)
+Definition dec_key (ty : string) (m : obj) : option (string * json) :=
+  let b58 := str_entry (lookup m "publicKeyBase58") in
+  if negb (b58 =? "") then (if ty =? ed2020 then None else Some ("publicKeyBase58", JStr b58)) else
+  match str_entry (lookup m "publicKeyMultibase") with
+  | String c rest =>
+      if Ascii.eqb c "z"%char then
+        (if ty =? ed2020 then Some ("publicKeyMultibase", JStr (String c rest)) else Some ("publicKeyBase58", JStr rest))
+      else None
+  | EmptyString =>
+      match lookup m "publicKeyJwk" with Some (JObj jw) => Some ("publicKeyJwk", JObj jw) | _ => None end
+  end.
+
+(* populateVerificationMethod (context v1).  AsIs: the controller of a method with a relative id was overwritten
+   (fix 3ac0a2b: only an undeclared one is defaulted) *)
+Definition dec_vm (w : variant) (did base : string) (m : obj) : option vmeth :=
+  let id := str_entry (lookup m "id") in
+  let ctrl := str_entry (lookup m "controller") in
+  let ty := str_entry (lookup m "type") in
+  match dec_key ty m with
+  | None => None
+  | Some k =>
+      if starts_hash id then
+        let id' := resolve_rel did base id in
+        Some {| m_id := id'; m_type := ty;
+                m_ctrl := match w with AsIs => before_hash id' | Fixed => if ctrl =? "" then before_hash id' else ctrl end;
+                m_rel := true; m_key := k |}
+      else Some {| m_id := id; m_type := ty; m_ctrl := ctrl; m_rel := false; m_key := k |}
+  end.
+Definition vm_id_text (did base : string) (v : vmeth) : string :=
+  if m_rel v then make_rel did base (m_id v) else m_id v.
+(* populateRawVerificationMethod *)
+Definition enc_vm (did base : string) (v : vmeth) : json :=
+  JObj [("id", JStr (vm_id_text did base v)); ("type", JStr (m_type v)); ("controller", JStr (m_ctrl v)); m_key v].
+
+Inductive verif := VRef (v : vmeth) | VEmb (v : vmeth).
+(* getVerificationsByKeyID *)
+Fixpoint find_vm (did base : string) (vms : list vmeth) (k : string) : option vmeth :=
+  match vms with
+  | [] => None
+  | v :: r => if (m_id v =? k) || (m_id v =? resolve_rel did base k) then Some v else find_vm did base r k
+  end.
+(* getVerification *)
+Definition dec_rel (w : variant) (did base : string) (vms : list vmeth) (j : json) : option (list verif) :=
+  match j with
+  | JStr k => if k =? "" then Some [] else option_map (fun v => [VRef v]) (find_vm did base vms k)
+  | JObj m => option_map (fun v => [VEmb v]) (dec_vm w did base m)
+  | _ => None
+  end.
+(* populateRawVerification *)
+Definition enc_rel (did base : string) (x : verif) : json :=
+  match x with VEmb v => enc_vm did base v | VRef v => JStr (vm_id_text did base v) end.
+
+(* parseContext + ContextCleanup, and contextWithBase on the way out *)
+Fixpoint remove_key (k : string) (m : obj) : obj :=
+  match m with [] => [] | (k', v) :: r => if k =? k' then remove_key k r else (k', v) :: remove_key k r end.
+Fixpoint ctx_scan (l : list json) (base : string) : list json * string :=
+  match l with
+  | [] => ([], base)
+  | JStr s :: r => let '(a, b) := ctx_scan r base in (JStr s :: a, b)
+  | JObj m :: r =>
+      let base' := match lookup m "@base" with Some (JStr b) => b | _ => base end in
+      let m' := remove_key "@base" m in
+      let '(a, b) := ctx_scan r base' in
+      (match m' with [] => a | _ => JObj (f64o m') :: a end, b)
+  | _ :: r => ctx_scan r base
+  end.
+Definition did_context (o : option json) : option json * string :=
+  match o with
+  | Some (JStr s) => (Some (JStr s), "")
+  | Some (JArr l) =>
+      let '(a, b) := ctx_scan l "" in
+      let items := a in
+      if b =? "" then (Some (match items with [] => JStr "" | _ => JArr items end), b)
+      else (Some (JArr (items ++ [JObj [("@base", JStr b)]])), b)
+  | _ => (Some (JStr ""), "")
+  end.
+
+Definition jlist (o : option json) : list json := match o with Some (JArr l) => l | _ => [] end.
+Definition opt_list (k : string) (l : list json) : obj := match l with [] => [] | _ => [(k, JArr l)] end.
+Definition rel_names : list string :=
+  ["authentication"; "assertionMethod"; "capabilityDelegation"; "capabilityInvocation"; "keyAgreement"].
+
+Fixpoint rels_out (w : variant) (did base : string) (vms : list vmeth) (m : obj) (names : list string) : option obj :=
+  match names with
+  | [] => Some []
+  | n :: r =>
+      match mapM (dec_rel w did base vms) (jlist (lookup m n)), rels_out w did base vms m r with
+      | Some ls, Some rest => Some (opt_list n (map (enc_rel did base) (List.concat ls)) ++ rest)
+      | _, _ => None
+      end
+  end.
+
+(* ParseDocument -> JSONBytes without the services (service_roundtrip), created/updated and proofs *)
+Definition roundtrip_did (w : variant) (j : json) : option json :=
+  match j with
+  | JObj m =>
+      match dec_str (lookup m "id") with
+      | Some did =>
+          let '(ctx, base) := did_context (lookup m "@context") in
+          match mapM (fun x => match x with JObj vm => dec_vm w did base vm | _ => None end) (jlist (lookup m "verificationMethod")) with
+          | Some vms =>
+              match rels_out w did base vms m rel_names with
+              | Some rels =>
+                  Some (JObj (opt_member "@context" ctx ++ emit_str "id" did true ++
+                              opt_list "alsoKnownAs" (jlist (lookup m "alsoKnownAs")) ++
+                              opt_list "verificationMethod" (map (enc_vm did base) vms) ++ rels))
+              | None => None
+              end
+          | None => None
+          end
+      | None => None
+      end
+  | _ => None
   end.
